@@ -10,6 +10,25 @@ def gt(name, pkg, run, **kw):
     return u
 
 
+ENGINES = [
+    {"name": "in-package reference-model monitors", "path": "harness/", "serves_properties": ["C01", "C02", "C03", "C04", "C05", "C06", "C07", "C10", "C12", "C13", "C14", "C15", "C16", "C18", "C19", "C20"],
+     "kind_free_text": "Go test files injected with go test -overlay (tag verif) that drive the real code on generated/solved/enumerated cases beside independent reference models (harness/ref) and report observed classes, counters and violations"},
+    {"name": "guard-page / write-protected-page monitor", "path": "harness/hk/guard.go", "serves_properties": ["C10", "C11", "C17"],
+     "kind_free_text": "mmap + mprotect(PROT_NONE / PROT_READ) around every argument, debug.SetPanicOnFault turns an out-of-range access or a write to an input into an observable fault with its address"},
+    {"name": "Go race detector", "path": "tools/vcheck.py", "serves_properties": ["C17"],
+     "kind_free_text": "go test -race on the injected concurrent workloads, GORACE halt_on_error=0 log_path=..., reports counted and deduplicated by repository frames"},
+]
+
+NOTES = ("All checks rebuild /repo's current working tree (go test -overlay adds the monitors; nothing in /repo is replaced). "
+         "Exit 0 = held on everything explored, 1 = VIOLATION line(s) with replay files under /verif/replays, 2 = INCONCLUSIVE (infrastructure). "
+         "arm64-only code cannot be executed in this amd64 sandbox; all claims are for amd64 assembly and portable Go. "
+         "Genuine defects found on the pinned tree were repaired by 'fix:' commits in /repo and are listed in KNOWN_FINDINGS.txt.")
+
+NOT_CLAIMED = {
+    "C08": "engine (memcheck taint sanitizer) under construction in this session; not yet registered",
+    "C09": "engine (ptrace single-step tracer) under construction in this session; not yet registered",
+}
+
 CHECKS = {
     "C04": {
         "level": "exploration",
@@ -106,5 +125,18 @@ CHECKS = {
         "rule": "guard-page monitor: every pointer argument in its own mapping with PROT_NONE pages on both sides, end-abutting and start-abutting; Block Encrypt/Decrypt for dst/src lengths 0..32 (and short-len/large-cap heap slices), Seal/Open/forged/short-ciphertext for every plaintext length 0..1100 (0..300 plus a seed-rotated fifth and all class lengths in quick), aad 0..300, nonce 1..300, tags 12..16, dst nil or exact-capacity guarded; assembly routines x1..x16, expandKeyAsm, gHashBlocks (1..40 blocks), sealAsm/openAsm called directly with exact-size buffers and round keys laid out as the cipher object (enc then dec, nothing after); a hardware fault = out-of-range access, an ordinary panic on too-short arguments = detected misuse; a class is (path, op, residues mod 16, tag, placement, dst kind)",
         "assumptions": ["a positive control (deliberate 1-byte over-read) must fault in every run", "faults are converted by debug.SetPanicOnFault; red zones are one page wide, non-adjacent wild accesses beyond a page are not seen by this monitor", ARM64_NOTE],
         "units": [gt("sm4", "./sm4/", "TestVerifC11")],
+    },
+    "C18": {
+        "level": "exploration",
+        "exhaustive": True,
+        "rule": "exhaustive walk of live package state: all 4 SM2 comb schemes incl. remainder tables (every point = Montgomery form of the stated multiple of G, computed by the reference model, limbs canonical), curve constants; SM4 sbox (algebraic derivation), s0..s3 = L(sbox<<24/16/8/0), ck, fk; SM3 Tj<<<(j mod 32), IV; amd64 assembly constants observed through execution: GFNI affine macro on all 256 bytes (and every lane), FK<>/CK<> recovered from expandKeyAsm outputs by inverting T', GHASH multiplier (GCM_POLY, bit-reversal masks, lane shuffles) on all 128x128 basis pairs in the 1-way regime and in the 4-way regime (all 8 block positions in thorough, one rotating position in quick); a class is (table, entry index mod 64 | constant family)",
+        "assumptions": ["reference models validated at start of every run", "arm64 data blocks (asm_arm64.s, gcm_arm64.s) cannot be executed in this sandbox and are not claimed", "Counter_Add*/Shuffle constants of gcm_amd64.s are exercised through C06 rather than isolated here"],
+        "units": [gt("internal", "./sm2/internal/", "TestVerifC18SM2"), gt("sm4", "./sm4/", "TestVerifC18SM4"), gt("sm3", "./sm3/", "TestVerifC18SM3")],
+    },
+    "C17": {
+        "level": "exploration",
+        "rule": "stress under the Go race detector: 16..64 goroutines x mixed Encrypt/Decrypt/Seal/Open/forged-Open on ONE Block and ONE AEAD with key, nonce, aad, message and ciphertext buffers shared and write-protected (PROT_READ, so assembly writes fault), both paths, GOMAXPROCS 16/4/2, Gosched between ops; 16..48 goroutines x SignHashed/VerifyHashed/DerivePublic/GenerateKey/Sign+Verify/sm3 sharing 4 key sets; every concurrent result compared with the serially precomputed model result (objects are immutable, so this is the linearizability condition); round keys snapshot before/after; race reports deduplicated by repository frames; overlap measured with an atomic in-flight counter (no overlap = inconclusive); a class is (path, workers, GOMAXPROCS)",
+        "assumptions": ["the race detector sees Go-side accesses only; assembly writes are observed through page protection of the shared inputs, not of the cipher object itself (compared by snapshot)", "porcupine is not used: there is no mutable shared object whose history needs a linearizability search", ARM64_NOTE],
+        "units": [gt("sm4-race", "./sm4/", "TestVerifC17SM4", race=True), gt("sm2-race", "./sm2/", "TestVerifC17SM2", race=True)],
     },
 }
